@@ -153,6 +153,30 @@ fn main() {
             }
         }
         "stack-child" => c18::child_main(&args[2]),
+        "one" => {
+            silence_panics();
+            match args[2].as_str() {
+                "C09" => batch::one_main::<c09::C09World>(&args[3..]),
+                "C12" => batch::one_main::<c12::C12World>(&args[3..]),
+                "C17" => batch::one_main::<c17::C17World>(&args[3..]),
+                "C18" => batch::one_main::<c18::C18World>(&args[3..]),
+                _ => usage(),
+            }
+        }
+        "replay" if args.get(3).map(|s| s.as_str()) != Some("--inproc") => {
+            // run the replay in a child, so that a world that kills its process is reported, not suffered
+            use std::os::unix::process::ExitStatusExt;
+            let st = std::process::Command::new(std::env::current_exe().expect("exe")).arg("replay").arg(&args[2]).arg("--inproc").status();
+            match st {
+                Ok(s) if s.signal().is_some() => {
+                    println!("violation class=crash_in_code_under_test detail=the process replaying this world is killed by signal {}", s.signal().unwrap());
+                    println!("VIOLATION property=(see file) replay=(this file)");
+                    1
+                }
+                Ok(s) => s.code().unwrap_or(2),
+                Err(_) => 2,
+            }
+        }
         "replay" => {
             silence_panics();
             let text = match std::fs::read_to_string(&args[2]) {
